@@ -13,7 +13,7 @@ LEAN_MODULES = ["OsmoVerif.Props.C08Gsmtime"]
 DRIVER_MODULES = ["SchedGsmtime"]
 LEAN_MODEL_MODULES = ["OsmoVerif.Model.SchedGsmtime", "OsmoVerif.Lemmas.SchedGsmtime", "OsmoVerif.Lemmas.SchedGsmtimeTdma"]
 ASSUMPTIONS = [
-    "gsmtime part: theorems are about OsmoVerif.Model.SchedGsmtime: hand model, statement by statement, of sched_gsmtime_init, sched_gsmtime, sched_gsmtime_execute (both ifs of the loop body, the break), sched_gsmtime_reset; the llist_head lists are Lean lists of the linked event structures, the 16-element pool with its explicit -EBUSY outcome, uint32_t fn / uint16_t p3 / unsigned 32-bit fn + SCHEDULE_AHEAD; the pointer si is the constant item set it points to; tdma_schedule_set is the function of Model/TdmaSched.lean (not a copy)",
+    "gsmtime part: theorems are about OsmoVerif.Model.SchedGsmtime: hand model, statement by statement, of sched_gsmtime_init, sched_gsmtime, sched_gsmtime_execute (both ifs of the loop body, the break), sched_gsmtime_reset; the llist_head lists are Lean lists of the linked event structures, the 16-element pool with its explicit -EBUSY outcome, uint32_t fn / uint16_t p3 / fn_sched = (fn + SCHEDULE_AHEAD) % GSM_MAX_FN with the sum in unsigned 32 bit; the pointer si is the constant item set it points to; tdma_schedule_set is the function of Model/TdmaSched.lean (not a copy)",
     "gsmtime part: the frame interrupt is modelled as sync.c runs it (l1Sync: traffic; tdma_sched_execute(); traffic (mframe_schedule); sched_gsmtime_execute(current_time.fn); tdma_sched_advance()); sched_gsmtime() is not re-entered from inside sched_gsmtime_execute (callers mask the frame interrupt: local_firq_save in prim_rach.c / prim_freq.c); sched_gsmtime_init() runs once on the link-time state of the lists",
     "gsmtime part: tied to the current tree by differential execution of the unchanged sched_gsmtime.c + tdma_sched.c (host build; the call to tdma_schedule_set goes through a recording wrapper of the harness; every history in a fresh process image) on structured random and boundary histories: pool exhaustion, equal fn's, out-of-order insertion (every sequence over 3 frame numbers up to length 4), too-close and past frames, resets, long runs, the hyperframe wrap and the uint32_t wrap; ARRAY_SIZE(sched_gsmtime_events), SCHEDULE_AHEAD, SCHEDULE_LATENCY, EBUSY, GSM_MAX_FN and the field widths are regenerated from the compiler's view of the file on every run and used by the theorems (gen_consts)",
 ]
@@ -21,16 +21,16 @@ ASSUMPTIONS = [
 MANIFEST_TEXT = (" || gsmtime part (sched_gsmtime.c, Props/C08Gsmtime.lean): pool_invariant (active ++ inactive a permutation of the 16 slots, active "
                  "sorted by fn; preserved by every operation and history), busy_iff (-EBUSY exactly when 16 events are pending, state unchanged), sched_accepts "
                  "(requests for one frame keep their order), execute_fires_exactly / due_event_fires / other_event_stays (one sched_gsmtime_execute hands over "
-                 "exactly the events with fn == (uint32_t)(fn+2), once each, in order; the break never cuts off a due event; stale events block nothing), "
-                 "fires_at_first_hit / fires_exactly_once / accepted_fires_exactly_once (exactly one tdma_schedule_set(1, si, p3) call, in frame F-2), "
-                 "stale_never_fires, stale_fires_next_hyperframe, wrap_full_fails (genuine defect: events for frames 0 and 1 are never handed over across the "
-                 "hyperframe wrap) / wrap_partial (F >= 2), reset_frees_all / nothing_fires_after_reset, frames_safe, event_set_runs_at / "
+                 "exactly the events with fn == fn_sched = (fn+2) mod GSM_MAX_FN, once each, in order; the break never cuts off a due event; stale events block nothing), "
+                 "fires_at_first_hit / fires_exactly_once / accepted_fires_exactly_once (exactly one tdma_schedule_set(1, si, p3) call, in frame (F-2) mod GSM_MAX_FN), "
+                 "stale_never_fires, stale_fires_next_hyperframe, out_of_range_never_fires, wrap_full (exactly once in frame (F-2) mod GSM_MAX_FN for every F < GSM_MAX_FN, "
+                 "across the hyperframe wrap as well; repo fix F21), reset_frees_all / nothing_fires_after_reset, frames_safe, event_set_runs_at / "
                  "event_set_runs_in_frame (composition with the TDMA scheduler: the k-th frame of the event's item set runs exactly once, in frame F-1+k, "
                  "unless the ignored tdma_schedule_set result was -1), frame_is_history")
 MANIFEST_NOTE = (" || gsmtime part: trusted additionally gen/sched_gsmtime.py, harness/c/c08_gsmtime_harness.c (recording wrapper around tdma_schedule_set, "
                  "fork per history); assumed: sched_gsmtime() is not re-entered from sched_gsmtime_execute(), sched_gsmtime_init() runs once, the item set an "
-                 "event points to is constant and SCHED_END_SET()-terminated; EBUSY is the host's errno value (16, as in newlib); known defect pinned by "
-                 "wrap_full_fails: F in {0,1} across GSM_MAX_FN (oracle judges such histories only up to that point until the region is a known finding or fixed)")
+                 "event points to is constant and SCHED_END_SET()-terminated; EBUSY is the host's errno value (16, as in newlib); the witnesses of the "
+                 "hyperframe-wrap defect repaired by repo fix F21 (events for frames 0 and 1 never handed over) stay in the fixed corpus of the oracle")
 
 NF = 25               # TDMA scheduler depth (property C08)
 NSLOTS = 16           # event pool the property speaks about
@@ -41,22 +41,6 @@ MAX_FN = 2715648      # GSM hyperframe (26 * 51 * 2048)
 U32 = 1 << 32
 FW_FLAGS = ["-Dputs=fw_puts", "-Dprintf=fw_printf", "-Dputchar=fw_putchar"]
 OK_CBS = list(range(0, 8))
-
-# The real code never fires an event for frame 0 or 1 that is pending when fn passes GSM_MAX_FN-2 / GSM_MAX_FN-1
-# (sched_gsmtime_execute compares evt->fn with the unreduced fn + SCHEDULE_AHEAD): theorem wrap_full_fails.
-# The oracle demands the full (modulo GSM_MAX_FN) statement ("strict") as soon as known_findings.json has an entry for
-# that region (match: part = gsmtime, region = hyperframe-wrap) or VERIF_C08_GSMTIME_WRAP=strict is set; until then
-# ("skip") a history is judged up to the first sched_gsmtime_execute that would have to fire such an event.
-WRAP_MODE = os.environ.get("VERIF_C08_GSMTIME_WRAP", "skip")
-WRAP_KNOWN = WRAP_MODE != "strict"
-
-
-def set_wrap_mode(run):
-    global WRAP_KNOWN
-    listed = any(k.get("property") == "C08" and k.get("match", {}).get("region") == "hyperframe-wrap"
-                 for k in run.known.get("findings", []))
-    WRAP_KNOWN = not (WRAP_MODE == "strict" or listed)
-
 
 def gen(run):
     run.sg_consts = sched_gsmtime.generate(run)
@@ -257,16 +241,12 @@ class Gen:
                         d = hot - fn
                     else:
                         d = r.choice([2, 2, 3, 3, 4, 5, 8, 13, 23, 24, 30, 60])
-                    F = (fn + d) % mod
-                    if mode == "mod" and F < AHEAD and r.random() < 0.85:
-                        F = AHEAD + r.choice([0, 0, 1, 2])      # most histories stay outside the region F in {0, 1} of wrap_full_fails
-                    ops.append(self.gs(F, big=r.random() < 0.04))
+                    ops.append(self.gs((fn + d) % mod, big=r.random() < 0.04))
                 if r.random() < burst:
                     d = r.choice([2, 3, 6, 40])
                     spread = r.choice([1, 3, 3, 8])
                     for k in range(r.choice([NSLOTS - 1, NSLOTS, NSLOTS + 1, NSLOTS + 3])):
-                        F = (fn + d + k % spread) % mod
-                        ops.append(self.gs(F if not (mode == "mod" and F < AHEAD) else AHEAD + 5))
+                        ops.append(self.gs((fn + d + k % spread) % mod))
                 if r.random() < tdma:
                     ops.append(self.sched(r.choice([0, 1, 2, 5, 24])))
                 if resets and r.random() < 0.04:
@@ -339,6 +319,16 @@ def boundary_histories():
             el.append(("i", k % 8, (serial[0] // 256) % 256, serial[0] % 256, 0, 0))
         return ("gs", F, p3, el + ["E"])
 
+    # the witnesses of the hyperframe-wrap defect repaired by repo fix F21 (sched_gsmtime_execute compared evt->fn with the unreduced
+    # fn + SCHEDULE_AHEAD: the events for frames 0 and 1 were never handed over); first, so that the check reports them if it returns
+    for F in (0, 1):
+        hist.append((24, [("gs", F, 7, [("i", 0, 0, 1, 0, 0), "E"]), ("exec",), ("gx", MAX_FN - 2 + F)], "wrap-regression-F21"))
+        ops = [("gs", F, 7, [("i", 0, 0, 1, 0, 0), "E"])]
+        fn = MAX_FN - 3
+        for k in range(8):
+            ops += one_frame(fn)
+            fn = (fn + 1) % MAX_FN
+        hist.append((24, ops, "wrap-regression-F21"))
     # every insertion sequence over three frame numbers, up to length 4; then the frames 3..6 (fire 5, 6, 7, nothing)
     for n in range(1, 5):
         for seq in itertools.product((5, 6, 7), repeat=n):
@@ -528,12 +518,11 @@ def c08_evaluate(cur, ops, obs):
 
 
 def evaluate(cur, ops, obs):
-    """None (property holds on this history), "n/a" (outside the premises), "known-wrap", or a dict describing the first failure"""
+    """None (property holds on this history), "n/a" (outside the premises), or a dict describing the first failure"""
     if len(obs) != len(ops):
         return {"what": "answer has %d tokens for %d ops" % (len(obs), len(ops)), "op_index": 0}
     pending = []
     tops, tobs, tidx = [], [], []
-    cut = False
     for i, (op, ob) in enumerate(zip(ops, obs)):
         if op[0] == "gs":
             _, F, p3, el = op
@@ -551,9 +540,6 @@ def evaluate(cur, ops, obs):
                 return "n/a"
             tgt = (fn + AHEAD) % MAX_FN
             due = [e for e in pending if e[0] == tgt]
-            if WRAP_KNOWN and fn + AHEAD >= MAX_FN and due:
-                cut = True          # the history is judged up to here (the TDMA scheduler part below included)
-                break
             if ob[0] != "g":
                 return {"what": "unexpected answer to sched_gsmtime_execute", "op_index": i, "got": ob}
             _, rc, calls = ob
@@ -588,8 +574,6 @@ def evaluate(cur, ops, obs):
         res = dict(res)
         res["op_index"] = tidx[res.get("op_index", 0)] if tidx else 0
         res["what"] = "TDMA scheduler, with every hand-over of sched_gsmtime_execute as tdma_schedule_set(1, set, p3): " + res["what"]
-    if cut and not isinstance(res, dict):
-        return "known-wrap"
     return res
 
 
@@ -687,7 +671,6 @@ def report(run, exe, cur, ops, res):
 
 
 def search(run, corr, deep):
-    set_wrap_mode(run)
     try:
         exe = build_harness(run, san=True)
         corr.distribution["gsmtime oracle: sched_gsmtime.c + tdma_sched.c instrumented (ASan+UBSan)"] = 1
@@ -716,7 +699,7 @@ def search(run, corr, deep):
             hist.append(g.frames(run.rng.choice([8, 60]), resets=False, load=(0, 0, 1), late=0.3, fn0=MAX_FN - run.rng.choice([2, 3, 4, 5, 9, 30])))
     lines = [to_line(c, o) for c, o in hist]
     answers = run_hist(exe, lines)
-    stats = {"ok": 0, "n/a": 0, "known-wrap": 0, "fail": 0}
+    stats = {"ok": 0, "n/a": 0, "fail": 0}
     found = 0
     events = 0
     for (cur, ops), ans in zip(hist, answers):
@@ -732,35 +715,12 @@ def search(run, corr, deep):
                 found += report(run, exe, cur, ops, res)
     corr.distribution["gsmtime oracle: histories within the premises"] = stats["ok"] + stats["fail"]
     corr.distribution["gsmtime oracle: histories outside the premises (skipped)"] = stats["n/a"]
-    corr.distribution["gsmtime oracle: histories reaching the hyperframe-wrap region F in {0,1} (judged up to there)"] = stats["known-wrap"]
-    corr.distribution["gsmtime oracle: full modulo-GSM_MAX_FN statement demanded"] = 0 if WRAP_KNOWN else 1
     corr.distribution["gsmtime oracle: sched_gsmtime requests checked"] = events
-    wrap_probe(run, exe, corr)
     return found
-
-
-def wrap_probe(run, exe, corr):
-    """the witness of theorem wrap_full_fails on the real code: a request made in frame GSM_MAX_FN-3 for frame 1 (4 frames ahead)
-    is accepted and never handed to the TDMA scheduler; recorded in the evidence, not a verdict"""
-    ev = ("gs", 1, 7, [("i", 1, 0, 1, 0, 0), "E"])
-    ops = [ev]
-    fn = MAX_FN - 2
-    for k in range(8):
-        ops += one_frame(fn)
-        fn = (fn + 1) % MAX_FN
-    ans = run_hist(exe, [to_line(0, ops)])[0]
-    fired = [t for t in ans.split() if t.startswith("g") and t != "g0"]
-    corr.notes.append("gsmtime hyperframe wrap probe (event for frame 1 requested before sched_gsmtime_execute(%d), frames %d..5): %s"
-                      % (MAX_FN - 2, MAX_FN - 2, "never handed over (full statement fails: theorem wrap_full_fails)" if not fired
-                         else "handed over: " + fired[0][:60]))
-    corr.distribution["gsmtime wrap probe: event for frame 1 fired across the hyperframe wrap"] = 1 if fired else 0
 
 
 def replay_witness(run, w):
     """re-run one recorded witness; returns True if the property still fails on it"""
-    if w.get("region") == "hyperframe-wrap":
-        global WRAP_KNOWN
-        WRAP_KNOWN = False
     try:
         exe = build_harness(run, san=True)
     except vf.HarnessError:
